@@ -4,7 +4,7 @@
      std::vector<T> elements;  std::vector<unsigned> limits;
      push(e)       elements.push_back(e)                               (ScopedVector.h:24)
      pushScope()   limits.push_back(elements.size())                   (ScopedVector.h:26)
-     popScope(cb)  lastLimit = limits.back(); limits.pop_back();       (ScopedVector.h:53-62)
+     popScope(cb)  lastLimit = limits.back(); limits.pop_back();       (ScopedVector.h:51-62)
                    while (elements.size() > lastLimit) { cb(elements.back()); elements.pop_back(); }
 
    Representation: both vectors are kept BACK FIRST (head of the list = back() of the vector), so
